@@ -141,6 +141,26 @@ func c01ExtraSpecs(c *core.Check, rng *rand.Rand) ([]*aspec.ASpec, []string) {
 		add("wireop:fixed@aliasResponseInlineObjectBody", a)
 	}
 	{
+		// one operation documents a component response and things that resolve to the same component under other
+		// statuses: an alias of it, an alias of the alias, the component itself twice (refused today: fine, as long
+		// as it is refused cleanly or what comes out compiles)
+		for vi, refs := range [][]string{{"Err", "ErrAlias"}, {"ErrAlias", "Err"}, {"ErrAlias", "ErrAlias2"}, {"Err", "Err"}, {"Err", "ErrAlias", "ErrAlias2"}} {
+			a, op := mk()
+			a.Responses = []aspec.NamedResponse{{Name: "Err", R: &aspec.Response{Desc: "e", Headers: []aspec.Header{{Name: "X-Why", Schema: str}}, Body: aspec.Body{K: "json", Schema: &str}}},
+				{Name: "ErrAlias", Alias: "Err"}, {Name: "ErrAlias2", Alias: "ErrAlias"}}
+			op.Responses = []aspec.RespRef{{Status: "200", R: &aspec.Response{Desc: "ok", Body: aspec.Body{K: "none"}}}}
+			for ri, r := range refs {
+				op.Responses = append(op.Responses, aspec.RespRef{Status: []string{"400", "404", "409"}[ri], Ref: r})
+			}
+			// and a second operation using the alias alone
+			t2 := []aspec.Seg{{K: "lit", S: "other"}}
+			o2 := simpleOp("GET", t2)
+			o2.Responses = []aspec.RespRef{{Status: "404", Ref: "ErrAlias"}}
+			a.Paths = append(a.Paths, aspec.PathItem{Template: t2, Ops: []aspec.Op{o2}})
+			add(fmt.Sprintf("config:component-response-and-its-alias-in-one-operation-%d", vi), a)
+		}
+	}
+	{
 		// component responses on the root path and on a trailing-slash path, no operationId
 		a, _ := mk()
 		a.Responses = []aspec.NamedResponse{{Name: "Ok", R: &aspec.Response{Desc: "ok", Body: aspec.Body{K: "json", Schema: &str}}}}
